@@ -2,7 +2,9 @@
    run_c03   : level L1 — the output ciphertext limbs of glwe_keyswitch(_assign) recomputed from the input limbs and the
                key as dumped before preparation; the constant [1] for the operations checked at level L2 only.
    oracle_c03: level L2 — the property on implementation outputs: phase under the target key minus the expected image
-               of the phase of the input, coefficient-wise inside the deterministic envelope (Model/Gadget.v). *)
+               of the phase of the input (identity, X -> X^g, partial trace, packed slots, extracted coefficient),
+               coefficient-wise inside the deterministic envelope (Model/Gadget.v gadget_env: derived there), and the two
+               runs from different scratch contents agree.  Record layout: harness/src/ks_common.rs, bin/c03.rs. *)
 From PV Require Import Base.MachineInt Model.Znx Model.Limbs Model.Flat Model.Ring Model.Poly Model.DftAbs Model.Gadget Model.GadgetOracle.
 Open Scope Z_scope.
 
@@ -25,29 +27,189 @@ Definition run_c03 (code : Z) (ps : list Z) (vs : list (list Z)) : option (list 
 (* ---------------------------------------------------------------------------------------------------------- *)
 Definition sk_in (ps : list Z) (vs : list (list Z)) := polys (h_n ps) (v vs 0).
 Definition sk_out (ps : list Z) (vs : list (list Z)) := polys (h_n ps) (v vs 1).
+Definition S_out (vs : list (list Z)) : Z := Z.max 1 (pnorm (v vs 1)).
+Definition S_in (vs : list (list Z)) : Z := Z.max 1 (pnorm (v vs 0)).
+(* flag vector: [the two runs from different scratch contents agree ; cross-backend identity 1 / 0 / 2 = not applicable ; statistics...] *)
+Definition flag (ps : list Z) (vs : list (list Z)) (k : nat) : bool :=
+  (nthZ (obs ps vs k) 0 =? 1) && negb (nthZ (obs ps vs k) 1 =? 0).
+Definition ph_in (ps : list Z) (vs : list (list Z)) (P : Z) (flat : list Z) : list Z :=
+  phase_flat P (h_n ps) (h_in_b ps) (h_in_size ps) (h_in_rank ps) (sk_in ps vs) flat.
+Definition ph_out (ps : list Z) (vs : list (list Z)) (P : Z) (flat : list Z) : list Z :=
+  phase_flat P (h_n ps) (h_out_b ps) (h_out_size ps) (h_out_rank ps) (sk_out ps vs) flat.
+Definition within (P : Z) (d : list Z) (env : Z) : bool := tor_norm P d <=? env.
 
-(* phase_{s_out}(res) - phase_{s_in}(a), |.| <= envelope of one gadget product ; the two scratch fills agree *)
+(* 3001/3002: phase_{s_out}(res) - phase_{s_in}(a), |.| <= envelope of one gadget product *)
 Definition oracle_keyswitch (ps : list Z) (vs outs : list (list Z)) : Z :=
-  let n := h_n ps in let P := prec ps in
+  let P := prec ps in
   let a := v vs 2 in
-  let res := nth 0 outs [] in
-  let d := psub (phase_flat P n (h_out_b ps) (h_out_size ps) (h_out_rank ps) (sk_out ps vs) res)
-                (phase_flat P n (h_in_b ps) (h_in_size ps) (h_in_rank ps) (sk_in ps vs) a) in
-  let env := header_env ps P (dmax a) (pnorm (v vs 1)) (pnorm (v vs 0)) (zn (h_key_rin ps)) true in
-  ob ((nthZ (obs ps vs 0) 0 =? 1) && (tor_norm P d <=? env)).
+  let d := psub (ph_out ps vs P (nth 0 outs [])) (ph_in ps vs P a) in
+  ob (flag ps vs 0 && within P d (header_env ps P (dmax a) (S_out vs) (S_in vs) (zn (h_key_rin ps)) true)).
 
-(* rows of a freshly encrypted key: switching key (x0 = 0: s_in under s_out) or automorphism key (x0 = p: s under sigma_{p^-1} s) *)
+(* 3003/3004: the same relation for every (row, input column) of a GGLWE *)
+Definition oracle_gglwe_ks (code : Z) (ps : list Z) (vs : list (list Z)) : Z :=
+  let P := prec ps in let n := h_n ps in
+  let a_rin := nx ps 3 in
+  let rd := if code =? 3003 then nx ps 5 else nx ps 4 in
+  let a := v vs 2 in let res := obs ps vs 0 in
+  ob (flag ps vs 1 &&
+      forallb (fun q =>
+        let aq := nth_glwe n (h_in_size ps) (h_in_rank ps) a q in
+        let rq := nth_glwe n (h_out_size ps) (h_out_rank ps) res q in
+        within P (psub (ph_out ps vs P rq) (ph_in ps vs P aq))
+               (header_env ps P (dmax aq) (S_out vs) (S_in vs) (zn (h_key_rin ps)) true)) (seq 0 (rd * a_rin))).
+
+(* 3007: LWE key-switch: scalar phases; the key switches sigma_{-1}(s_in || 0) to sigma_{-1}(s_out || 0) in rank 1 *)
+Definition oracle_lwe_ks (ps : list Z) (vs : list (list Z)) : Z :=
+  let P := prec ps in
+  let a := v vs 2 in
+  let d := lwe_phase P (h_out_b ps) (nx ps 4) (v vs 1) (obs ps vs 0) - lwe_phase P (h_in_b ps) (nx ps 3) (v vs 0) a in
+  ob (flag ps vs 1 && (zabs_wrap P d <=? header_env ps P (dmax a) (S_out vs) (S_in vs) 1 true)).
+
+(* 3010..3017: automorphism and its add / sub variants; key rows encrypt s under sigma_{g^-1}(s) *)
+Definition oracle_automorphism (code : Z) (ps : list Z) (vs : list (list Z)) : Z :=
+  let P := prec ps in
+  let g := x ps 0 in
+  let a := v vs 2 in
+  let pa := ph_in ps vs P a in
+  let sa := sigmaZ P g pa in
+  let want := match code with
+              | 3010 | 3011 => sa
+              | 3012 | 3013 => padd sa pa
+              | 3014 | 3016 => psub sa pa
+              | _ => psub pa sa
+              end in
+  let extra := match code with 3010 | 3011 => 0 | _ => round_env P (h_n ps) (h_out_rank ps) (S_out vs) (h_out_b ps) (h_out_size ps) end in
+  ob (flag ps vs 1 && within P (psub (ph_out ps vs P (obs ps vs 0)) want)
+                             (header_env ps P (dmax a) (S_out vs) (S_in vs) (zn (h_key_rin ps)) true + extra)).
+
+(* 3020/3021: the automorphism of an automorphism key for p_a with the key for p_b is an automorphism key for p_a p_b:
+   its rows decrypt under sigma_{(p_a p_b)^-1}(s) to s_ci 2^-((r+1) b) with error <= error of the input key + one gadget product *)
+Definition oracle_atk_automorphism (code : Z) (ps : list Z) (vs : list (list Z)) : Z :=
+  let P := prec ps in let n := h_n ps in
+  let pa := x ps 0 in let pb := x ps 3 in
+  let dnum_a := nx ps 4 in let k_a := x ps 5 in
+  let rd := if code =? 3020 then nx ps 6 else dnum_a in
+  let g := (pa * pb) mod (2 * zn n) in
+  let src := sk_in ps vs in
+  let tgt := map (sigmaZ P (ginv n g)) src in
+  let eb := h_bound ps * 2 ^ (P - k_a) + header_env ps P (dmax (v vs 2)) (S_out vs) (S_in vs) (zn (h_key_rin ps)) true in
+  ob (flag ps vs 2 && ((nthZ (obs ps vs 1) 0 - g) mod (2 * zn n) =? 0) &&
+      keyrow_ok P n (h_out_b ps) (h_out_size ps) (h_in_rank ps) (h_in_rank ps) 1 rd eb src tgt (obs ps vs 0)).
+
+(* one glwe_automorphism(_add)_assign on a GLWE of sz limbs of radix b with normalised digits, result in the same shape *)
+Definition auto_env (ps : list Z) (vs : list (list Z)) (P : Z) (b : Z) (sz : nat) : Z :=
+  shape_env ps P (2 ^ (b - 1)) (S_out vs) (S_in vs) (zn (h_key_rin ps)) true b sz b sz.
+
+(* 3030/3031: partial trace from level skip: keeps the coefficients at multiples of N / 2^skip.
+   Every level: rsh(1) (one rounding) + automorphism_add_assign; the averaging maps (1 + sigma)/2 do not increase the sup norm. *)
+Definition oracle_trace (code : Z) (ps : list Z) (vs : list (list Z)) : Z :=
+  let P := prec ps in let n := h_n ps in
+  let skip := nx ps 0 in
+  let logn := Z.to_nat (Z.log2 (zn n)) in
+  let steps := zn (logn - skip) in
+  let a := v vs 2 in
+  let kb := h_key_b ps in
+  (* working copy: radix of the key *)
+  let sz := if code =? 3030
+            then Z.to_nat (div_ceil (Z.max (zn (h_in_size ps) * h_in_b ps) (zn (h_out_size ps) * h_out_b ps)) kb)
+            else if h_in_b ps =? kb then h_in_size ps else conv_size (h_in_size ps) (h_in_b ps) kb in
+  let rnd := round_env P n (h_in_rank ps) (S_out vs) kb sz in
+  let env := steps * (auto_env ps vs P kb sz + rnd) + 2 * rnd
+             + round_env P n (h_out_rank ps) (S_out vs) (h_out_b ps) (h_out_size ps) in
+  let want := proj (n / 2 ^ skip)%nat (ph_in ps vs P a) in
+  ob (flag ps vs 1 && within P (psub (ph_out ps vs P (obs ps vs 0)) want) env).
+
+(* 3032: packing: slot i (occupied, multiple of 2^log_gap_out) -> coefficient i receives coefficient 0 of ciphertext i; every
+   other coefficient is 0.  L = log N - log_gap_out merge levels (each: one automorphism, roundings), then the trace.
+   Errors of the two merged inputs add at each level: (2^L - 1) * level error in the worst case. *)
+Definition oracle_pack (ps : list Z) (vs : list (list Z)) : Z :=
+  let P := prec ps in let n := h_n ps in
+  let lg := nx ps 0 in let mask := x ps 3 in
+  let logn := Z.to_nat (Z.log2 (zn n)) in
+  let L := (logn - lg)%nat in
+  let slots := filter (fun i => Z.testbit mask (zn i)) (seq 0 n) in
+  let cts := v vs 2 in
+  let phs := map (fun k => ph_in ps vs P (nth_glwe n (h_in_size ps) (h_in_rank ps) cts k)) (seq 0 (length slots)) in
+  let want := map (fun i =>
+                 if Nat.eqb (i mod 2 ^ lg)%nat 0 then
+                   match find (fun q => Nat.eqb (fst q) i) (combine slots phs) with
+                   | Some q => nthZ (snd q) 0 | None => 0 end
+                 else 0) (seq 0 n) in
+  let ib := h_in_b ps in let isz := h_in_size ps in
+  let rnd := round_env P n (h_in_rank ps) (S_out vs) ib isz in
+  let lvl := shape_env ps P (2 ^ (ib - 1)) (S_out vs) (S_in vs) (zn (h_key_rin ps)) true ib isz ib isz + 6 * rnd in
+  let kb := h_key_b ps in
+  let sz := Z.to_nat (div_ceil (Z.max (zn isz * ib) (zn (h_out_size ps) * h_out_b ps)) kb) in
+  let rk := round_env P n (h_in_rank ps) (S_out vs) kb sz in
+  let env := (2 ^ zn L - 1) * lvl + zn lg * (auto_env ps vs P kb sz + rk) + 2 * rk
+             + round_env P n (h_out_rank ps) (S_out vs) (h_out_b ps) (h_out_size ps) in
+  ob (flag ps vs 1 && within P (psub (ph_out ps vs P (obs ps vs 0)) want) env).
+
+(* 3040: lwe_from_glwe(idx): LWE phase under s_lwe = coefficient idx of the GLWE phase; rows of the key encrypt s_glwe under
+   sigma_{-1}(s_lwe || 0) *)
+Definition oracle_lwe_from_glwe (ps : list Z) (vs : list (list Z)) : Z :=
+  let P := prec ps in
+  let a := v vs 2 in
+  let d := lwe_phase P (h_out_b ps) (nx ps 3) (v vs 1) (obs ps vs 0) - nthZ (ph_in ps vs P a) (nx ps 0) in
+  ob (flag ps vs 1 && (zabs_wrap P d <=? header_env ps P (dmax a) (S_out vs) (S_in vs) (zn (h_key_rin ps)) true)).
+
+(* 3041: glwe_from_lwe: coefficient 0 of the GLWE phase = LWE phase *)
+Definition oracle_glwe_from_lwe (ps : list Z) (vs : list (list Z)) : Z :=
+  let P := prec ps in
+  let a := v vs 2 in
+  let d := nthZ (ph_out ps vs P (obs ps vs 0)) 0 - lwe_phase P (h_in_b ps) (nx ps 3) (v vs 0) a in
+  ob (flag ps vs 1 && (zabs_wrap P d <=? header_env ps P (dmax a) (S_out vs) (S_in vs) 1 true)).
+
+(* 3042: sample extraction is exact (for any LWE secret s: phase_s(res) = coefficient 0 of the phase under sigma_{-1}(s||0)),
+   up to the limbs that do not fit *)
+Definition oracle_sample_extract (ps : list Z) (vs : list (list Z)) : Z :=
+  let P := prec ps in let n := h_n ps in
+  let nl := nx ps 3 in
+  let s := v vs 0 in
+  let a := v vs 2 in
+  let pa := phase_flat P n (h_in_b ps) (h_in_size ps) 1 [lwe_embed P n s] a in
+  let d := lwe_phase P (h_out_b ps) nl s (obs ps vs 0) - nthZ pa 0 in
+  let env := if Nat.leb (h_in_size ps) (h_out_size ps) then 0
+             else (1 + zn nl) * 2 ^ (h_in_b ps) * 2 ^ (P - (zn (h_out_size ps) + 1) * h_in_b ps) in
+  ob (zabs_wrap P d <=? env).
+
+(* 3050: the decoded message (k_pt bits at the top) is the same for every gadget shape and equals the encrypted one *)
+Definition decode (P kpt : Z) (ph : list Z) : list Z := map (fun c => wrap kpt ((wrap P c + 2 ^ (P - kpt - 1)) / 2 ^ (P - kpt))) ph.
+Definition oracle_shapes (ps : list Z) (vs : list (list Z)) : Z :=
+  let n := h_n ps in
+  let kpt := x ps 3 in let gn := nx ps 4 in
+  let q := fun gi j => x ps (5 + 6 * gi + j) in
+  let P := fold_left Z.max (map (fun gi => Z.max (q gi 3%nat * q gi 0%nat) (q gi 5%nat * q gi 4%nat)) (seq 0 gn)) (zn (h_in_size ps) * h_in_b ps) + 16 in
+  let msg := map (wrap kpt) (v vs 2) in
+  let m_in := decode P kpt (ph_in ps vs P (v vs 3)) in
+  ob (forallb (fun z => fst z =? snd z) (combine m_in msg) && Nat.eqb (length m_in) (length msg) &&
+      forallb (fun gi =>
+        let res := obs ps vs gi in
+        let ph := phase_flat P n (q gi 4%nat) (Z.to_nat (q gi 5%nat)) (h_out_rank ps) (sk_out ps vs) res in
+        forallb (fun z => fst z =? snd z) (combine (decode P kpt ph) msg)) (seq 0 gn)).
+
+(* 3090: rows of a freshly encrypted key: switching key (x0 = 0: s_in under s_out) or automorphism key (x0 = p: s under sigma_{p^-1} s) *)
 Definition oracle_keyrows (ps : list Z) (vs : list (list Z)) : Z :=
   let n := h_n ps in let P := prec ps in
   let g := x ps 0 in
   let src := sk_in ps vs in
   let tgt := if g =? 0 then sk_out ps vs else map (sigmaZ P (ginv n g)) src in
   ob (keyrow_ok P n (h_key_b ps) (h_key_size ps) (h_key_rin ps) (h_key_rout ps) (h_dsize ps) (h_dnum ps)
-                (h_bound ps) (h_key_k ps) src tgt (obs ps vs 0)).
+                (h_bound ps * 2 ^ (P - h_key_k ps)) src tgt (obs ps vs 0)).
 
 Definition oracle_c03 (code : Z) (ps : list Z) (vs outs : list (list Z)) : Z :=
   match code with
   | 3001 | 3002 => oracle_keyswitch ps vs outs
+  | 3003 | 3004 => oracle_gglwe_ks code ps vs
+  | 3007 => oracle_lwe_ks ps vs
+  | 3010 | 3011 | 3012 | 3013 | 3014 | 3015 | 3016 | 3017 => oracle_automorphism code ps vs
+  | 3020 | 3021 => oracle_atk_automorphism code ps vs
+  | 3030 | 3031 => oracle_trace code ps vs
+  | 3032 => oracle_pack ps vs
+  | 3040 => oracle_lwe_from_glwe ps vs
+  | 3041 => oracle_glwe_from_lwe ps vs
+  | 3042 => oracle_sample_extract ps vs
+  | 3050 => oracle_shapes ps vs
   | 3090 => oracle_keyrows ps vs
   | _ => 2
   end.
